@@ -47,6 +47,9 @@ ReorderKinds(h) ==
       n == IF Len(ii) < Len(oo) THEN Len(ii) ELSE Len(oo)
   IN (IF \E i \in 1..Len(oo) : ~SortedTs(DataOf(oo[i])) THEN {"reorder_unsorted"} ELSE {})
      \cup (IF Len(ii) # Len(oo) \/ \E i \in 1..n : DataBag(ii[i]) # DataBag(oo[i]) THEN {"reorder_lost"} ELSE {})
+     (* C05: the first iteration is right and a later one is not: something was carried over *)
+     \cup (IF n >= 2 /\ DataBag(ii[1]) = DataBag(oo[1]) /\ \E i \in 2..n : DataBag(ii[i]) # DataBag(oo[i])
+           THEN {"carry_over"} ELSE {})
      \cup (IF EarlyRelease(h, 1, -1, FALSE) # {} THEN {"reorder_early_release"} ELSE {})
 
 (* folds: per iteration, per key: one result, value = sum, ts = max input ts *)
@@ -74,6 +77,8 @@ FoldKinds(h, m) ==
                    ~(resultsFor(oo[i], k)[1].k = "T" /\ resultsFor(oo[i], k)[1].ts = maxTs(ii[i], k))
               THEN {"agg_timestamp"} ELSE {})
   IN (IF Len(ii) # Len(oo) THEN {"carry_over"} ELSE {}) \cup UNION {badIter(i) : i \in 1..n}
+     (* C05: the first iteration is right and a later one is not: something was carried over *)
+     \cup (IF n >= 2 /\ badIter(1) = {} /\ \E i \in 2..n : badIter(i) # {} THEN {"carry_over"} ELSE {})
 
 PropOfKind(kind) ==
   CASE kind \in {"reorder_unsorted", "reorder_lost", "reorder_early_release"} -> "C16"
